@@ -402,7 +402,16 @@ class Runner:
         self.in_dens = False
 
     def tick(self):
-        self.trace.append(self.M.snapshot())
+        import tensorflow as tf
+        if tf.executing_eagerly():
+            snap = self.M.snapshot()
+        else:
+            # the evaluation point is reached while a tf.function is being traced (helpers that change the chain selection
+            # force a new trace): read the Python-level state outside the graph under construction (Variable.numpy() is not
+            # available inside it; found by the thorough tier as three false alarms of the harness)
+            with tf.init_scope():
+                snap = self.M.snapshot()
+        self.trace.append(snap)
         k = self.n
         self.n += 1
         if k == self.K:
